@@ -34,6 +34,15 @@ for d in sorted(os.listdir(sd)):
     caught = f"{prop} quick: exit {det.get('exit')}, {det.get('violations')} signature(s)" if det.get("ran") else str(m.get("ran", "see meta.json"))
     sig = esc((det.get("signatures") or [""])[0][:110]).replace(chr(96), chr(39))
     out.append(f"| {d} | {esc(str(m.get('breaks', ''))[:200])} | {esc(str(m.get('needs', ''))[:160])} | {caught} | {sig} |")
+sup = os.path.join(sd, "superseded")
+if os.path.isdir(sup):
+    out.append("\nSuperseded (detected when made; a later `fix:` commit made the property hold under the change, so it no longer breaks it on the current tree):\n")
+    out.append("| seed | breaks | why superseded |\n|---|---|---|")
+    for d in sorted(os.listdir(sup)):
+        mp = os.path.join(sup, d, "meta.json")
+        if os.path.exists(mp):
+            m = json.load(open(mp))
+            out.append(f"| {d} | {esc(str(m.get('breaks', ''))[:200])} | {esc(str(m.get('superseded', ''))[:300])} |")
 text = "\n".join(out) + "\n"
 p = f"{V}/DESIGN.md"
 s = open(p).read()
